@@ -138,7 +138,10 @@ CHECKS = {
          "subsets x sizes crossing field-width boundaries x magnitude classes x all bond types, tagged values), the relation "
          "descriptor of every stored attribute after dump_one/load_one against Expect(fmt, key, present): same / defaulted / "
          "poscar-order / bonds-untyped / casefold, never permuted, sign-flipped, rescaled, truncated, missing; refusals of "
-         "in-domain objects and unreadable output are violations.",
+         "in-domain objects and unreadable output are violations. QCSchema input/output documents and XYZ with user-defined atom "
+         "columns are rows of the table; QCSchema.tla (documents as key sets, model-checked load/dump/reload machine) yields "
+         "objects loaded from every class of molecule document, which must be writable and read back unchanged; arrays are also "
+         "given in Fortran order and as strided views.",
     note="floating-point closeness is decided by the projection with per-field tolerances derived from the table; wavefunction equivalence under arbitrary conventions is C01",
     technique="TLA+ format table (Formats.tla) exported by TLC drives tagged round trips; TLC validates the projected relation descriptors"),
  "C15": dict(
@@ -156,8 +159,11 @@ CHECKS = {
          "Cube) and per format the loaded attributes with their prescribed unit; TLC checks the tables (cursor state machine: no "
          "gap, no overlap; literals fit) and exports them; a generic renderer that interprets the tables writes files of 15 "
          "formats from random tagged models (sizes/magnitudes chosen so that neighbouring fields touch, layout variants), the real "
-         "readers load them and TLC validates that every attribute's relation descriptor is `same`.",
-    note="program logs (Gaussian/ORCA/Q-Chem/CP2K logs, GAMESS punch) have no published layout to transcribe and are not covered here; molden/molekel are rendered in C05; the independent writer is a trusted transcription of the public format descriptions",
+         "readers load them and TLC validates that every attribute's relation descriptor is `same`. Gaussian log, ORCA output, "
+         "GAMESS punch, Q-Chem output and WFX files are rendered in the shape the programs print them; QCSchema.tla states where "
+         "the loader must put the value of every key of a molecule document (attribute, extra, pass-through) and which omissions "
+         "are errors or warnings, and TLC validates the placement observed for every generated key subset.",
+    note="the program-output renderers are transcriptions of sample outputs (no published column specification); CP2K output, WFN, MWFN have no rendered counterpart here (C01 compares corpus WFN/WFX/FCHK files with independent readers); molden/molekel are rendered in C05",
     technique="TLA+ layout tables (Layouts.tla) exported by TLC drive an independent writer; TLC validates relation descriptors of loaded objects"),
  "C04": dict(
     category="exploration", design_ref="DESIGN.md section 6 C04",
